@@ -7,10 +7,9 @@ META = dict(
                        "(rerun and propagate_rerun)"],
     stubs=["vf/engine.py", "pre-states are built on the real file system from entries produced by real runs (complete / errored), truncated or "
            "stripped by the harness"],
-    outside=["concurrent submitters (C10)", "more than two read-only caches", "real pickles truncated at arbitrary byte offsets (one "
-             "zero-byte and one half-length truncation are used)"],
+    outside=["concurrent submitters (C10)", "more than two read-only caches", "real pickles truncated at arbitrary byte offsets (0, 2, half and all-but-one byte are used)"],
     assumptions=["inductive step: the pre-state of every listed cache location is an arbitrary member of the entry-state set "
-                 "{absent, empty dir, job record only, zero-byte result, partial result, errored result, complete result}; the post-state "
+                 "{absent, empty dir, job record only, zero-byte / two-byte / half / all-but-one-byte result, errored result, complete result}; the post-state "
                  "is in the same set, so histories of any length are covered by one step"],
 )
 
@@ -28,10 +27,10 @@ def build(tier, seed, exclude):
     quick = tier == "quick"
     to = 110 if quick else 600
     # partition by the cache-root state so that the cores share the space; the rest stays symbolic
-    for s0 in range(7):
+    for s0 in range(9):
         for n_ro in (0, 1, 2):
             params = {0: "rerun: bool", 1: "s1: int, rerun: bool", 2: "s1: int, s2: int, rerun: bool"}[n_ro]
-            pre = {0: "True", 1: "0 <= s1 < 7", 2: "0 <= s1 < 7 and 0 <= s2 < 7"}[n_ro]
+            pre = {0: "True", 1: "0 <= s1 < 9", 2: "0 <= s1 < 9 and 0 <= s2 < 9"}[n_ro]
             sts = {0: f"[{s0}, 0, 0]", 1: f"[{s0}, T.real(s1), 0]", 2: f"[{s0}, T.real(s1), T.real(s2)]"}[n_ro]
             g.cond(f"h_step_root{s0}_ro{n_ro}", params, [pre], f"""
                 err = EN.c11({sts}, {n_ro}, T.real(rerun), 1)
@@ -46,4 +45,4 @@ def build(tier, seed, exclude):
         err = EN.c11([6, 0, 0], 0, T.real(rerun), 1)
         return False
     """, timeout=120, kind="twin")
-    return g.spec(bounds={"cache locations": "cache root + 0-2 read-only caches", "entry states": 7, "history length": 3})
+    return g.spec(bounds={"cache locations": "cache root + 0-2 read-only caches", "entry states": 9, "history length": 3})
